@@ -11,6 +11,8 @@
  *   fsg <n_state> <start> <final>
  *   t <from> <to> <prob> [word]      (FSG text transition; no word = null transition)
  *   audio file <path> <start_sample> <n_samples> | audio noise <seed> <n_samples> <amplitude>
+ *   probe <frame>                    (ask decoder_hyp() for a partial result after that frame; -1 = after the last frame,
+ *                                     before the search is finished: result queries must not change the final result)
  *   run
  * Output per case: dump lines, closed by "end <id>".  Flushes after every line group. */
 #include "common.h"
@@ -37,6 +39,20 @@ static int ntr, nstate, sstart, sfinal;
 static int16 *audio;
 static size_t naudio;
 static char caseid[64];
+#define MAXPROBE 8
+static int probes[MAXPROBE], nprobe;
+static int detail_frame = -99;   /* `detail <t>`: also print the full state behind the fingerprint of frame t (YD lines) */
+
+static void probe_hyp(int t)
+{
+    int32 sc = 0x7fffffff;
+    const char *hyp = decoder_hyp(d, &sc);
+    char *h = strdup(hyp ? hyp : ""), *p;
+    for (p = h; *p; p++) if (*p == ' ') *p = '_';
+    if (sc != 0x7fffffff) printf("PH %d %d %s\n", t, sc, *h ? h : "-");
+    else printf("PH %d none -\n", t);
+    free(h);
+}
 
 static void die(const char *m) { printf("error %s\nend %s\n", m, caseid); fflush(stdout); }
 
@@ -129,6 +145,79 @@ static void dump_lextree(fsg_lextree_t *lt, fsg_model_t *fsg)
         printf("XC %d", i);
         for (p = pn[i]->next.succ; p; p = p->sibling) printf(" %d", pn_id(p));
         printf("\n");
+    }
+}
+
+
+/* per-frame fingerprint of the search state for the token-passing tie (tools/props/c02.py, driver c02s):
+ *   Y <t> <bestscore> <#active HMMs> <hash of the active HMMs' state and exit scores>
+ *     <hash of the word-exit entries made in this frame> <hash of the null-arc entries made in this frame>
+ * Entry hashes are canonical: per (destination state, lc, right-context phone r < nci) the best score among
+ * the entries of that kind whose rc set contains r (independent of the order in which equal scores arrived). */
+#define HM 2147483629ULL
+static uint64_t nrm(long long x) { long long m = x % (long long)HM; if (m < 0) m += (long long)HM; return (uint64_t)m; }
+static uint64_t mix(const long long *xs, int n)
+{
+    uint64_t h = 7; int i;
+    for (i = 0; i < n; i++) h = (h * 1000003ULL + nrm(xs[i])) % HM;
+    return h;
+}
+static void dump_Y(fsg_search_t *fsgs, int t, int from, int nci)
+{
+    int i, n = fsg_history_n_entries(fsgs->history), nact = 0;
+    uint64_t hh = 0, eh[2] = { 0, 0 };
+    for (i = 0; i < npn; i++) {
+        hmm_t *h = &pn[i]->hmm;
+        if (hmm_frame(h) == fsgs->frame) {
+            long long xs[5];
+            xs[0] = i; xs[1] = hmm_score(h, 0); xs[2] = hmm_score(h, 1); xs[3] = hmm_score(h, 2); xs[4] = hmm_out_score(h);
+            hh = (hh + mix(xs, 5)) % HM;
+            nact++;
+        }
+    }
+    for (i = from; i < n; i++) {
+        fsg_hist_entry_t *e = fsg_history_entry_get(fsgs->history, i);
+        fsg_link_t *l = fsg_hist_entry_fsglink(e);
+        int r, kind;
+        if (!l) continue;
+        kind = fsg_link_wid(l) < 0;
+        for (r = 0; r < nci; r++) {
+            int j, win = 1;
+            if (!(e->rc.bv[r >> 5] & (1u << (r & 31)))) continue;
+            for (j = from; j < n && win; j++) {
+                fsg_hist_entry_t *e2 = fsg_history_entry_get(fsgs->history, j);
+                fsg_link_t *l2 = fsg_hist_entry_fsglink(e2);
+                if (j == i || !l2 || (fsg_link_wid(l2) < 0) != kind) continue;
+                if (fsg_link_to_state(l2) != fsg_link_to_state(l) || e2->lc != e->lc) continue;
+                if (!(e2->rc.bv[r >> 5] & (1u << (r & 31)))) continue;
+                if (e2->score > e->score || (e2->score == e->score && j < i)) win = 0;
+            }
+            if (win) {
+                long long xs[4];
+                xs[0] = fsg_link_to_state(l); xs[1] = e->lc; xs[2] = r; xs[3] = e->score;
+                eh[kind] = (eh[kind] + mix(xs, 4)) % HM;
+            }
+        }
+    }
+    printf("Y %d %d %d %llu %llu %llu\n", t, (int)fsgs->bestscore, nact, (unsigned long long)hh,
+           (unsigned long long)eh[0], (unsigned long long)eh[1]);
+    if (t == detail_frame) {
+        for (i = 0; i < npn; i++) {
+            hmm_t *h = &pn[i]->hmm;
+            if (hmm_frame(h) == fsgs->frame)
+                printf("YD H %d %d %d %d %d\n", i, hmm_score(h, 0), hmm_score(h, 1), hmm_score(h, 2), hmm_out_score(h));
+        }
+        for (i = from; i < n; i++) {
+            fsg_hist_entry_t *e = fsg_history_entry_get(fsgs->history, i);
+            fsg_link_t *l = fsg_hist_entry_fsglink(e);
+            int r, first = 1;
+            if (!l) continue;
+            printf("YD E %d %d %d %d ", fsg_link_wid(l) < 0, fsg_link_to_state(l), e->lc, e->score);
+            for (r = 0; r < nci; r++)
+                if (e->rc.bv[r >> 5] & (1u << (r & 31))) { printf("%s%d", first ? "" : ",", r); first = 0; }
+            printf("%s\n", first ? "-" : "");
+        }
+        printf("YDEND %d\n", t);
     }
 }
 
@@ -241,18 +330,23 @@ static void run_case(void)
 
     /* decode: buffer the features, then step the search by hand, recording the senone scores */
     if (decoder_start_utt(d) < 0) { die("start-utt"); goto done; }
+    dump_Y(fsgs, -1, 0, nci);
     decoder_process_int16(d, audio, naudio, /*no_search*/ 1, /*full_utt*/ 1);
     acmod_end_utt(acmod);
     while (acmod->n_feat_frame > 0) {
         int fi = acmod->output_frame;
         int16 const *scr = acmod_score(acmod, &fi);
+        int nprev = fsg_history_n_entries(fsgs->history);
         printf("F %d", T);
         for (i = 0; i < sens.n; i++) printf(" %d", (int)scr[sens.v[i]]);
         printf("\n");
         search_module_step(d->search, acmod->output_frame);
+        dump_Y(fsgs, T, nprev, nci);
+        for (k = 0; k < nprobe; k++) if (probes[k] == T) probe_hyp(T);
         acmod_advance(acmod);
         T++;
     }
+    for (k = 0; k < nprobe; k++) if (probes[k] == -1) { probe_hyp(-1); break; }
     search_module_finish(d->search);
     /* decoder_hyp() returns NULL for a result that consists of fillers only but still sets the score:
      * a sentinel tells whether find_exit produced one */
@@ -309,7 +403,7 @@ int main(int argc, char **argv)
         if (n == 0) continue;
         if (!strcmp(w[0], "case") && n >= 2) {
             strncpy(caseid, w[1], sizeof(caseid) - 1);
-            ntr = 0; nstate = 0; naudio = 0;
+            ntr = 0; nstate = 0; naudio = 0; nprobe = 0; detail_frame = -99;
             printf("case %s\n", caseid);
         } else if (!strcmp(w[0], "cfg") && n == 3) {
             if (config_set_str(d->config, w[1], w[2]) == NULL) printf("error cfg %s\n", w[1]);
@@ -325,6 +419,10 @@ int main(int argc, char **argv)
             if (load_audio_file(w[2], atol(w[3]), atol(w[4])) < 0) printf("error audio\n");
         } else if (!strcmp(w[0], "audio") && n == 5 && !strcmp(w[1], "noise")) {
             make_noise((uint64_t)strtoull(w[2], NULL, 10), atol(w[3]), atoi(w[4]));
+        } else if (!strcmp(w[0], "detail") && n == 2) {
+            detail_frame = atoi(w[1]);
+        } else if (!strcmp(w[0], "probe") && n == 2) {
+            if (nprobe < MAXPROBE) probes[nprobe++] = atoi(w[1]);
         } else if (!strcmp(w[0], "run")) {
             run_case();
         } else
